@@ -182,7 +182,7 @@ Arguments rng {gen}.
 Definition POSITIONS : fname := [112; 111; 115; 105; 116; 105; 111; 110; 115]%Z.  (* "positions" *)
 Definition MASK : fname := [109; 97; 115; 107]%Z.                                  (* "mask" *)
 
-Definition special (k : fname) : bool := fname_eqb k POSITIONS || fname_eqb k MASK.
+Definition special (k : fname) : bool := fname_eqb POSITIONS k || fname_eqb MASK k.   (* k in ["positions", "mask"] *)
 
 (* dst[: len(src)] = src  (one row) *)
 Definition write_row (src dst : row) : row := src ++ skipn (length src) dst.
